@@ -34,6 +34,8 @@ CLAIMS = {
             "(space, vectors, scalars) replayed on the real vspace for all dtypes/containers and judged by TLC (operations = algebra, freshness, space equality)", "4 C13"),
     "C14": ("model_checking", "AGM programs whose output is independent of the variable or depends on it only through a notrace primitive, every "
             "depth and mode; replayed and judged by TLC", "4 C14"),
+    "C16": ("model_checking", "Operators.tla: every differential operator defined as a contraction of one symbolic integer Jacobian/Hessian; operator "
+            "identities model-checked; 20 operators x shapes x argument layouts replayed on the real package, shape and entries compared exactly by TLC", "4 C16"),
     "C17": ("model_checking", "AGM with a user-defined product primitive and a rule table {rule, None, missing}: arities 1..4 x differentiated subsets x "
             "trace-level assignments x registration APIs; checkpoint == plain call for value and reverse-mode derivatives of order 1-2; replayed and judged by TLC", "4 C17"),
     "C19": ("model_checking", "AGM with faults at every instruction of the innermost function, in the backward pass and at trace exit, caught at every "
